@@ -31,7 +31,7 @@ SPEC = {
     "props": ["props/C09.v"],
     "corr": ["corr/HsMgr_corr.v"],
     "build_comp": "hsmgr",
-    "comps": [{"comp": "hsmgr09", "n_quick": 200, "n_thorough": 4000}],
+    "comps": [{"comp": "hsmgr09", "n_quick": 150, "n_thorough": 4000}],
     "trusted": ["model/HsMgr.v is a hand-written mirror of handshake_manager.go (StartHandshake, handleOutbound first attempt and timeout, "
                 "beginHandshake, validatePeerCert, CheckAndComplete, handleCheckAndCompleteError, continueHandshake, Complete) and "
                 "hostmap.go SetRemoteIfPreferred, over model/HostMap.v (C28); tied by the correspondence",
